@@ -6,21 +6,24 @@
 EXTENDS HooksProp, TLC, Json
 
 CONSTANTS MaxCtx, MaxLen,
-          ExitGuard     \* TRUE: __exit__ as coded after the fix; FALSE: the pinned code
+          ExitGuard,    \* TRUE: __exit__ as coded after the fix; FALSE: the pinned code
+          SaveAtEnter   \* TRUE: the manager remembers pickle.load when it is ENTERED (as coded after the fix);
+                        \* FALSE: when it is constructed (a manager built earlier and entered later restores a stale binding)
 
 VARIABLES bind,        \* BI -> {"orig", "checked", "ml"}
-          ctx,         \* stack of [saved |-> binding of pickle.load when the manager was constructed]
+          ctx,         \* stack of [saved |-> binding of pickle.load the manager will restore]
+          pending,     \* managers constructed (fickling.check_safety()) and not entered yet, oldest first
           adds,        \* the closures installed by the last activation carry additions
           G,           \* set of ghost states admitted so far (HooksProp)
           bad,         \* "" or the clause the design violates
           hist
-vars == <<bind, ctx, adds, G, bad, hist>>
+vars == <<bind, ctx, pending, adds, G, bad, hist>>
 
 Orig == [i \in BI |-> "orig"]
 Blocks(b) == [i \in BI |-> b[i] # "orig"]
 IsOrig(b) == [i \in BI |-> b[i] = "orig"]
 
-Init == bind = Orig /\ ctx = <<>> /\ adds = FALSE /\ G = {Ghost0} /\ bad = "" /\ hist = <<>>
+Init == bind = Orig /\ ctx = <<>> /\ pending = <<>> /\ adds = FALSE /\ G = {Ghost0} /\ bad = "" /\ hist = <<>>
 
 Observe(op, b2) ==
   LET adds2 == IF op = "activate_add" THEN TRUE ELSE IF op \in {"activate", "remove"} THEN FALSE ELSE adds
@@ -35,11 +38,18 @@ Observe(op, b2) ==
   /\ bind' = b2 /\ G' = G2 /\ hist' = Append(hist, op)
   /\ bad' = IF G2 = {} THEN Clause(op) ELSE ""
 
-Arm      == Observe("arm", [bind EXCEPT ![1] = "checked"]) /\ UNCHANGED ctx           \* run_hook()
-Activate(a) == Observe(a, [i \in BI |-> "ml"]) /\ UNCHANGED ctx                          \* all four bindings
-Remove   == Observe("remove", Orig) /\ UNCHANGED ctx                                   \* remove_hook()
-Enter    == /\ Len(ctx) < MaxCtx                                                       \* ctor saves, __enter__ hooks
-            /\ ctx' = Append(ctx, [saved |-> bind[1]])
+Arm      == Observe("arm", [bind EXCEPT ![1] = "checked"]) /\ UNCHANGED <<ctx, pending>>           \* run_hook()
+Activate(a) == Observe(a, [i \in BI |-> "ml"]) /\ UNCHANGED <<ctx, pending>>                          \* all four bindings
+Remove   == Observe("remove", Orig) /\ UNCHANGED <<ctx, pending>>                                   \* remove_hook()
+\* constructing a manager and entering it are two steps of the code (fickling.check_safety() returns the manager;
+\* `with` enters it): other operations may come in between
+New      == /\ Len(ctx) + Len(pending) < MaxCtx
+            /\ pending' = Append(pending, [saved |-> bind[1]])
+            /\ Observe("new", bind) /\ UNCHANGED ctx
+Enter    == /\ (pending # <<>> \/ Len(ctx) + Len(pending) < MaxCtx)      \* the oldest constructed manager, or a fresh one
+            /\ LET sv == IF SaveAtEnter \/ pending = <<>> THEN bind[1] ELSE pending[1].saved
+               IN ctx' = Append(ctx, [saved |-> sv])
+            /\ pending' = IF pending = <<>> THEN pending ELSE Tail(pending)
             /\ Observe("enter", [bind EXCEPT ![1] = "checked"])
 Exit(a)  == /\ ctx # <<>>
             /\ LET top == ctx[Len(ctx)]
@@ -48,14 +58,14 @@ Exit(a)  == /\ ctx # <<>>
                          ELSE IF bind[3] # "orig" THEN [bind EXCEPT ![1] = bind[3]]   \* ML env active: its loader
                          ELSE [bind EXCEPT ![1] = top.saved]
                IN Observe(a, b2)
-            /\ ctx' = SubSeq(ctx, 1, Len(ctx) - 1)
+            /\ ctx' = SubSeq(ctx, 1, Len(ctx) - 1) /\ UNCHANGED pending
 
 Next == /\ bad = "" /\ Len(hist) < MaxLen
-        /\ (Arm \/ Activate("activate") \/ Activate("activate_add") \/ Remove \/ Enter \/ Exit("exit") \/ Exit("exit_exc"))
+        /\ (Arm \/ Activate("activate") \/ Activate("activate_add") \/ Remove \/ New \/ Enter \/ Exit("exit") \/ Exit("exit_exc"))
 Spec == Init /\ [][Next]_vars
 
 DesignOK == bad = ""
 TypeOK == bind \in [BI -> {"orig", "checked", "ml"}] /\ \A x \in G : Len(x.open) = Len(ctx)
-View == <<bind, ctx, adds, G, bad>>       \* design check without the history variable
+View == <<bind, ctx, pending, adds, G, bad>>       \* design check without the history variable
 Emit == (Len(hist) = MaxLen) => PrintT(<<"HIST", ToJson(hist)>>)
 =============================================================================
